@@ -13,8 +13,8 @@ from ..hashsim.execute import run
 from .ragcheck import replay_fresh, _h
 
 TIERS = {
-    "quick": {"C11": {"runs": 40000}, "C12": {"runs": 12000, "k": 5}},
-    "thorough": {"C11": {"runs": 1200000}, "C12": {"runs": 300000, "k": 8}},
+    "quick": {"C11": {"runs": 80000}, "C12": {"runs": 20000, "k": 5}},
+    "thorough": {"C11": {"runs": 2500000}, "C12": {"runs": 500000, "k": 8}},
 }
 MAX_RAW_PER_CHUNK = 10
 MAX_CLASSES = 12
